@@ -54,7 +54,7 @@ Definition ds_ok (d : dataset) : bool :=
   (2 <=? nc)%nat && pos_distinct (d_pos d) &&
   forallb (fun p => absle (2 ^ 20) (px p) && absle (2 ^ 20) (py p)) (d_pos d) &&
   Nat.eqb (length (d_shanks d)) nc && (0 <=? d_nclosest d) && thr_ok (d_thr d) &&
-  rect nc nc (d_wmi d) && forallb (forallb (absle (2 ^ 10))) (d_wmi d) &&
+  rect nc nc (d_wmi d) && forallb (forallb (absle (2 ^ 10))) (d_wmi d) && absle 64 (d_scale d) &&
   (2 <=? length (d_templates d))%nat &&
   match d_templates d with
   | (c0 :: _) :: _ =>
@@ -78,7 +78,7 @@ Definition req_ok (d : dataset) (i : inp) (q : reqk) : bool :=
   let nt := length (d_templates d) in
   match q with
   | RGet r => (r_tid r <? nt)%nat &&
-              match r_chans r with Some l => forallb (fun c => 0 <=? c) l | None => true end &&
+              match r_chans r with Some l => forallb (fun c => (0 <=? c) && (c <? 65536)) l | None => true end &&
               match r_thr r with Some t => thr_ok t | None => true end
   | RAcc tid => (tid <? nt)%nat
   | RClu _ => true
@@ -91,11 +91,12 @@ Definition inp_ok (i : inp) : bool :=
 Definition small (T : list (list Z)) : bool := forallb (forallb (absle (2 ^ 24 - 1))) T.
 
 (* ---- observed records ------------------------------------------------------------------------------------ *)
+(* (bounded: a wrapped uint32 such as 4294967295 must not be turned into a unary nat) *)
 Definition to_nats (l : list Z) : option (list nat) :=
-  if forallb (fun c => 0 <=? c) l then Some (map Z.to_nat l) else None.
+  if forallb (fun c => (0 <=? c) && (c <? 65536)) l then Some (map Z.to_nat l) else None.
 Definition mkobs (tpl : list (list Z)) (amp : list Z) (bc : Z) (chans : list Z) : option trec :=
   match to_nats chans with
-  | Some cs => if 0 <=? bc then Some (mkrec tpl amp (Z.to_nat bc) cs) else None
+  | Some cs => if (0 <=? bc) && (bc <? 65536) then Some (mkrec tpl amp (Z.to_nat bc) cs) else None
   | None => None
   end.
 Definition rec_eqb (a b : trec) : bool :=
@@ -136,7 +137,7 @@ Definition judge_dense (d : dataset) (r : request) (T : list (list Z)) (m o : tr
 
 Definition judge_sparse (d : dataset) (r : request) (cols : list (list Z)) (chans : list Z) (m o : trec) : list Z :=
   let c24 := sparse_channels_b cols chans o in
-  let c25 := sparse_aligned_b (d_wmi d) cols chans (r_unwhiten r) o in
+  let c25 := sparse_aligned_b (d_wmi d) (d_scale d) cols chans (r_unwhiten r) o in
   let c26 := sparse_sorted_b o in
   let c1 := if nodupZ_b (t_amplitude m) then rec_eqb m o else set_eqb m o in
   flag 1 c1 ++ flag 24 c24 ++ flag 25 c25 ++ flag 26 c26.
@@ -210,7 +211,7 @@ Definition check1 (i : inp) (q : reqk) (o : obs1) : list Z :=
                                        match nth_error (d_templates d) tid, nth_error table tid with
                                        | Some cols, Some chs =>
                                            match omap (position_of chs (kept_positions cols chs)) cs with
-                                           | Some sigma => let tpl := map (sparse_col (d_wmi d) cols chs true) sigma in
+                                           | Some sigma => let tpl := map (sparse_col (d_wmi d) (d_scale d) cols chs true) sigma in
                                                            Some (Some (mkrec tpl (map ptp tpl) (t_best m) cs))
                                            | None => Some None
                                            end
